@@ -67,10 +67,24 @@ TEXTS = {'quick': 20000, 'thorough': 1000000}
 HISTS = {'quick': 4000, 'thorough': 300000}
 MIN_PAIRS = 100      # design floor is 40; the enumeration part alone yields ~200 on the current tree
 
+_Q_COUNTERS = {
+    'warn:bad-trailer': 500, 'warn:bad-urgency-value': 350, 'warn:empty-file': 10, 'warn:eof-inside-block': 2000,
+    'warn:invalid-key-value': 500, 'warn:repeated-key': 500, 'warn:unexpected-line-at-start-of-changes': 4000,
+    'warn:unexpected-line-before-first-heading': 4000, 'warn:unexpected-line-between-blocks': 4000,
+    'warn:unexpected-line-in-changes': 5000,
+    'sole:bad-trailer': 100, 'sole:bad-urgency-value': 40, 'sole:empty-file': 10, 'sole:eof-inside-block': 300,
+    'sole:invalid-key-value': 60, 'sole:repeated-key': 90, 'sole:unexpected-line-at-start-of-changes': 1700,
+    'sole:unexpected-line-before-first-heading': 1700, 'sole:unexpected-line-between-blocks': 1900,
+    'sole:unexpected-line-in-changes': 2500,
+    'strict:accepted': 6500, 'strict:raised': 14000, 'normalform:eof-block': 1500, 'normalform:rich-heading': 11000,
+    'op:new_block': 2900, 'op:add_change': 3200, 'op:set': 2000, 'op:bset': 2400,
+    'hist:from-empty': 800, 'hist:from-parsed': 2700,
+}
 FLOORS = {
-    'quick': {'nontrivial': 4500,
-              'monitors': {'M.total': 9000, 'M.strict': 9000, 'M.normalform': 4000, 'M.history': 1000},
-              'counters': {}},
+    'quick': {'nontrivial': 9500,
+              'monitors': {'M.total': 21000, 'M.strict': 21000, 'M.normalform': 20000, 'M.history': 3000,
+                           'P.state-line': 300000},
+              'counters': _Q_COUNTERS},
     'thorough': {'nontrivial': 200000,
                  'monitors': {'M.total': 400000, 'M.strict': 400000, 'M.normalform': 180000, 'M.history': 50000},
                  'counters': {}},
@@ -93,6 +107,19 @@ WARN_SITES = [('Empty changelog file', 'empty-file'),
               ('Found eof where expected', 'eof-inside-block')]
 
 _STATE = {'probe': None, 'gate': False}
+
+# a regular block that parses without any warning (urgency comment + extra pairs, whitespace-only and
+# trailing-whitespace change lines); the enumerated cases put exactly one irregular line into it
+ENUM_BASE = ['base-pkg (1.0-1) unstable; urgency=low (HIGH for users of diversions), binary-only=yes, closes=123',
+             '', '  * change one', '    continuation  ', '  ', '  [ X ]', '  * change two', '',
+             ' -- A B <a@b.c>  Mon, 1 Jan 2001 00:00:00 +0000', '']
+ENUM_ASSIGN = [('package', 'newpkg'), ('version', '9:9.9-9'), ('distributions', 'stable testing'), ('urgency', 'HIGH'),
+               ('urgency_comment', ' (security)'), ('other_pairs', {'XS-Foo': 'bar baz'}),
+               ('author', 'New Author <n@a>'), ('date', 'Tue, 2 Jan 2001 01:02:03 +0100')]
+
+# mechanism: topline accepts a version containing ';' but the key=value list is cut at the FIRST ';' of the
+# line (inside the version), so urgency / comment / extra pairs written by _format are not read back
+SEMI_KEY = 'semicolon-in-version-misplaces-key-value-split'
 
 
 def warn_site(message):
@@ -205,7 +232,7 @@ def cases(ctx):
         if ctx.mine(idx):
             yield {'kind': 'text', 'text': '\n'.join(lines) + '\n', 'aea': [False, True], 'src': 'fixture:' + name}
         idx += 1
-    base = g.block(ctx.rng('enum-base'), rich=True) + ['']
+    base = list(ENUM_BASE)
     for cls in g.JUNK_CLASSES:
         for j in g.JUNK[cls]:
             for where in ('alone', 'first', 'after-heading', 'in-changes', 'last', 'last-twice', 'as-heading',
@@ -235,6 +262,33 @@ def cases(ctx):
         if ctx.mine(idx):
             yield {'kind': 'text', 'text': t, 'aea': [False, True], 'src': 'enum:empty'}
         idx += 1
+
+    # 1b. enumerated single edits on blocks with one irregular line: (irregular heading | irregular trailer |
+    #     text ending inside the block) x (every attribute assignment, add_change, new_block)
+    edits = [[['bset', 0, a, v]] for a, v in ENUM_ASSIGN]
+    edits.append([['bset', 0, 'author', 'New Author <n@a>'], ['bset', 0, 'date', 'Tue, 2 Jan 2001 01:02:03 +0100']])
+    edits.append([['add_change', '  * added']])
+    edits.append([['new_block', {'package': 'n', 'version': '2', 'distributions': 'unstable', 'urgency': 'low',
+                                 'changes': ['', '  * new', ''], 'author': 'N <n@a>',
+                                 'date': 'Tue, 2 Jan 2001 01:02:03 +0100'}]])
+    starts = []
+    for cls in g.JUNK_CLASSES:
+        for j in g.JUNK[cls]:
+            if cls.startswith('heading') or cls.startswith('old3'):
+                starts.append([j] + base[1:])
+                starts.append(base + [j] + base[1:])
+            if cls.startswith('trailer') or cls == 'bare-trailer':
+                starts.append(base[:-2] + [j, ''])
+                starts.append(base[:-2] + [j, ''] + base)
+    for k in range(1, len(base) - 1):
+        starts.append(base[:k])
+        starts.append(base + base[:k])
+    for ls in starts:
+        for ops in edits:
+            for aea in (False, True):
+                if ctx.mine(idx):
+                    yield {'kind': 'hist', 'start': '\n'.join(ls) + '\n', 'aea': aea, 'ops': ops, 'src': 'enum'}
+                idx += 1
 
     # 2. random mutated texts
     r = ctx.rng('texts')
@@ -378,6 +432,8 @@ def normal_form(ctx, c, aea, small, mon):
                 # mechanism: the block was parsed from a text that ended inside it (no trailer line);
                 # author/date assigned afterwards are never written by _format
                 key = 'author-date-assigned-to-eof-truncated-block-not-formatted'
+            elif diff == ['urgency'] and ';' in (sx['version'] or ''):
+                key = SEMI_KEY
             ctx.violation(key, 'block %d %s: formatted from %r, parsed back %r; output %r'
                           % (n, attr, sx[attr], sy[attr], s), small)
             return True
@@ -385,7 +441,10 @@ def normal_form(ctx, c, aea, small, mon):
         sx, sy = sig_extra(x), sig_extra(y)
         if sx != sy:
             attr = [k for k in sorted(sx) if sx[k] != sy[k]][0]
-            ctx.violation('reparse-heading-extras-differ/%s' % attr, 'block %d %s: formatted from %r, parsed back %r; output %r'
+            key = 'reparse-heading-extras-differ/%s' % attr
+            if ';' in (_version_of(x) or ''):
+                key = SEMI_KEY
+            ctx.violation(key, 'block %d %s: formatted from %r, parsed back %r; output %r'
                           % (n, attr, sx[attr], sy[attr], s), small)
             return True
     try:
@@ -412,8 +471,11 @@ def check_text(ctx, text, aea):
         _STATE['gate'] = False
     ctx.mon('M.total')
     warned = bool(w)
-    for m in set(warn_site(x) for x in w):
+    sites = set(warn_site(x) for x in w)
+    for m in sites:
         ctx.count('warn:' + m)
+    if len(sites) == 1:       # the text has problems of one kind only: strict mode must raise at exactly that site
+        ctx.count('sole:' + min(sites))
     # --- strict raises <=> lenient warned
     raised, sw = False, []
     try:
